@@ -50,12 +50,15 @@ def tool_cases(draw, name, tier):
             s["falsy"] = draw(st.integers(0, 3)) == 0
             s["susp"] = draw(st.integers(1, 2))
             s["cret"] = draw(st.sampled_from([None, None, True]))
+            # the cleanup of a source suspends, too: a cancellation may arrive while the tool is closing its sources
+            s["csusp"] = draw(st.booleans())
     else:
         case["srcs"][0]["fl"] = "async"
         case["srcs"][0]["susp"] = 1
     if name == "chain_from_iterable":
         case["params"]["outer"]["fl"] = draw(st.sampled_from(["agen", "aclass"]))
         case["params"]["outer"]["susp"] = 1
+        case["params"]["outer"]["csusp"] = draw(st.booleans())
         case["params"]["outer"]["falsy"] = draw(st.integers(0, 2)) == 0
     for spec in case["fns"].values():
         spec["fl"] = draw(st.sampled_from(["async", "obj", "objaw", "gencoro", "classaw"]))
